@@ -113,6 +113,21 @@ func parsePred(tok string) func([]int) bool {
 		}
 		return func(a []int) bool { return fixedPred(i, a) }
 	}
+	if tok[0] == 'P' {
+		// the fixed predicate I again, but reached through a method value of an object with
+		// (constant) mutable state, a memo table and a defensive copy of its argument
+		i, err := strconv.Atoi(tok[1:])
+		if err != nil || i < 0 || i >= nFixedPreds {
+			panic("bad predicate " + tok)
+		}
+		o := &predObj{idx: []int{i}, memo: map[string]bool{}}
+		return o.test
+	}
+	if tok[0] == 'z' {
+		// accept exactly the prefixes shorter than N: everything is explored, nothing of length >= N survives
+		n := atoi(tok[1:])
+		return func(a []int) bool { return len(a) < n }
+	}
 	if tok[0] == 's' || tok[0] == 'd' || tok[0] == 'e' {
 		p := strings.Split(tok[1:], ":")
 		c, lo, hi := atoi(p[0]), 0, maxInt
@@ -130,6 +145,24 @@ func parsePred(tok string) func([]int) bool {
 		return func(a []int) bool { return hashPred(seed, num, den, a) }
 	}
 	panic("bad predicate " + tok)
+}
+
+type predObj struct {
+	idx   []int
+	memo  map[string]bool
+	calls int
+}
+
+func (o *predObj) test(a []int) bool {
+	o.calls++
+	b := append(make([]int, 0, len(a)+3), a...)
+	key := tup(b)
+	if v, ok := o.memo[key]; ok {
+		return v
+	}
+	v := fixedPred(o.idx[0], b)
+	o.memo[key] = v
+	return v
 }
 
 // prunePred: the strongly pruning predicate families (a is never empty); the entries that
@@ -687,6 +720,9 @@ type drained struct {
 //   rSEED  Value only after a pseudo random half of the steps
 //   d      Value twice in a row after every step (both results must agree)
 //   n      Value never called
+//   w      Value after every step and the returned slice overwritten by the caller afterwards
+//          (only where the documentation allows modifying it: MultisetCombinations, Partitions)
+//   t      Value after every step and 300 further calls of Next after exhaustion
 // observe gives the number of Value calls after step i (0-based).
 var callPat string
 
@@ -706,6 +742,8 @@ func observe(pat string, i int) int {
 		return 2
 	case 'n':
 		return 0
+	case 'w', 't':
+		return 1
 	}
 	panic("bad call pattern " + pat)
 }
@@ -747,6 +785,14 @@ func drain(next func() bool, value func() string, limit, window int) drained {
 			d.tail += "T"
 		} else {
 			d.tail += "F"
+		}
+	}
+	if callPat == "t" {
+		for i := 0; i < 300; i++ {
+			if next() {
+				d.tail = fmt.Sprintf("T@%d", i+3)
+				break
+			}
 		}
 	}
 	return d
@@ -929,9 +975,247 @@ func execPair(line string) hx.Result {
 	return res
 }
 
+// slicesOf returns the index range of the slice-valued arguments of a case (the integers after
+// the scalar ones), or -1.
+func sliceArgStart(f []string) int {
+	switch f[0] {
+	case "product", "mperm":
+		return 1
+	case "mcomb", "rpprod":
+		return 2
+	}
+	return -1
+}
+
+// mkIterOn is mkIter for the constructors that take a slice, with the slice supplied by the caller.
+func mkIterOn(f []string, sl []int) (func() bool, func() string) {
+	switch f[0] {
+	case "product":
+		it := itertools.Product(sl...)
+		return it.Next, func() string { return tup(it.Value()) }
+	case "mperm":
+		it := itertools.MultisetPermutations(sl)
+		return it.Next, func() string { return tup(it.Value()) }
+	case "mcomb":
+		it := itertools.MultisetCombinations(sl, atoi(f[1]))
+		return it.Next, func() string { return tup(it.Value()) }
+	case "rpprod":
+		it := itertools.RestrictedPrefixProduct(parsePred(f[1]), sl...)
+		return it.Next, func() string { return tup(it.Value()) }
+	}
+	panic("mkIterOn: " + f[0])
+}
+
+func drainAll(next func() bool, value func() string, steps int) ([]string, bool) {
+	var out []string
+	for i := 0; steps < 0 || i < steps; i++ {
+		if !next() {
+			return out, true
+		}
+		out = append(out, value())
+		if len(out) > 300000 {
+			return out, true
+		}
+	}
+	return out, false
+}
+
+func soloObs(vals []string) string { return fmt.Sprintf("%d:%s;FFF", len(vals), strings.Join(vals, "/")) }
+
+// execShared: "sh <case>" (two iterators of the same case) or "sh mcomb k1 k2 m.." built on ONE
+// caller-owned slice, run with a hand-off (A three steps, B completely, A to the end, three more
+// calls each); "sc <case>": the caller overwrites its slice right after the constructor returned
+// (Product and RestrictedPrefixProduct, which copy their factors for that purpose).  Each
+// iterator must yield what it yields alone on a private slice.
+func execShared(line string) hx.Result {
+	f := strings.Fields(line)
+	kind := f[0]
+	f = f[1:]
+	fa, fb := f, f
+	if f[0] == "mcomb" && kind == "sh" {
+		fa = append([]string{"mcomb", f[1]}, f[3:]...)
+		fb = append([]string{"mcomb", f[2]}, f[3:]...)
+	}
+	ra := exec(strings.Join(fa, " "))
+	res := hx.Result{Obs: ra.Obs, Nontrivial: true, Viol: ra.Viol, Buckets: []string{"input-aliasing", "input-aliasing:" + kind + ":" + f[0]}}
+	st := sliceArgStart(fa)
+	sl := atois(fa[st:])
+	orig := cp(sl)
+	if kind == "sc" {
+		next, value := mkIterOn(fa, sl)
+		for i := range sl {
+			sl[i] = []int{0, -1, 7, maxInt}[i%4]
+		}
+		vals, _ := drainAll(next, value, -1)
+		for i := 0; i < 3; i++ {
+			if next() {
+				vals = append(vals, "<true after false>")
+			}
+		}
+		if got := soloObs(vals); got != ra.Obs {
+			res.Viol = append(res.Viol, hx.Fail("C15:input-aliasing", "[%s]: after the caller overwrote the slice it had passed to the constructor the iterator yields %s, otherwise %s", strings.Join(fa, " "), clip(got), clip(ra.Obs)))
+		}
+		return res
+	}
+	rb := exec(strings.Join(fb, " "))
+	res.Obs = ra.Obs + " && " + rb.Obs
+	res.Viol = append(res.Viol, rb.Viol...)
+	nA, vA := mkIterOn(fa, sl)
+	nB, vB := mkIterOn(fb, sl)
+	a1, doneA := drainAll(nA, vA, 3)
+	b1, _ := drainAll(nB, vB, -1)
+	if !doneA {
+		a2, _ := drainAll(nA, vA, -1)
+		a1 = append(a1, a2...)
+	}
+	for i := 0; i < 3; i++ {
+		if nA() {
+			a1 = append(a1, "<true after false>")
+		}
+		if nB() {
+			b1 = append(b1, "<true after false>")
+		}
+	}
+	if got := soloObs(a1); got != ra.Obs {
+		res.Viol = append(res.Viol, hx.Fail("C15:input-aliasing", "[%s] sharing its input slice with [%s] yields %s, alone %s", strings.Join(fa, " "), strings.Join(fb, " "), clip(got), clip(ra.Obs)))
+	}
+	if got := soloObs(b1); got != rb.Obs {
+		res.Viol = append(res.Viol, hx.Fail("C15:input-aliasing", "[%s] sharing its input slice with [%s] yields %s, alone %s", strings.Join(fb, " "), strings.Join(fa, " "), clip(got), clip(rb.Obs)))
+	}
+	if tup(sl) != tup(orig) {
+		res.Viol = append(res.Viol, hx.Fail("C15:input-aliasing", "[%s]: the caller's slice %v was changed to %v", strings.Join(fa, " "), orig, sl))
+	}
+	return res
+}
+
+// execAfterPanic: "ap <case>": a constructor that panics by design, a predicate and an order
+// relation that panic in the middle of a run are provoked and recovered, then the case is run
+// and judged as in a fresh process.
+func execAfterPanic(line string) hx.Result {
+	provoke := func(g func()) {
+		defer func() { recover() }()
+		g()
+	}
+	provoke(func() { itertools.Partitions(0) })
+	provoke(func() {
+		c := 0
+		it := itertools.RestrictedPrefixPermutations(5, func(a []int) bool {
+			c++
+			if c == 40 {
+				panic("user predicate gives up")
+			}
+			return true
+		})
+		for it.Next() {
+		}
+	})
+	provoke(func() {
+		c := 0
+		it := itertools.RestrictedPrefixProduct(func(a []int) bool {
+			c++
+			if c == 17 {
+				panic("user predicate gives up")
+			}
+			return a[len(a)-1] != 1
+		}, 3, 3, 3)
+		for it.Next() {
+		}
+	})
+	provoke(func() {
+		c := 0
+		it := itertools.PermutationsByPattern(5, func(a []int) bool {
+			c++
+			if c == 33 {
+				panic("user predicate gives up")
+			}
+			return true
+		})
+		for it.Next() {
+		}
+	})
+	provoke(func() {
+		c := 0
+		it := itertools.TopologicalSorts(5, func(i, j int) bool {
+			c++
+			if c == 21 {
+				panic("user relation gives up")
+			}
+			return false
+		})
+		for it.Next() {
+		}
+	})
+	res := exec(strings.TrimPrefix(line, "ap "))
+	res.Buckets = append(res.Buckets, "after-recovered-panics")
+	return res
+}
+
+// execCallback: "cb A ;; B": A is predicate-driven; every call of its predicate advances the
+// independent iterator B by one step.  Both must yield what they yield alone.
+func execCallback(line string) hx.Result {
+	parts := strings.SplitN(strings.TrimPrefix(line, "cb "), " ;; ", 2)
+	ra, rb := exec(parts[0]), exec(parts[1])
+	res := hx.Result{Obs: ra.Obs + " && " + rb.Obs, Nontrivial: true, Buckets: []string{"iterator-driven-from-callback"}}
+	res.Viol = append(append(res.Viol, ra.Viol...), rb.Viol...)
+	nB, vB := mkIter(strings.Fields(parts[1]))
+	var sb []string
+	doneB := 0
+	stepB := func() {
+		if doneB >= 4 {
+			return
+		}
+		if nB() {
+			sb = append(sb, vB())
+			if doneB > 0 {
+				sb = append(sb, "<true after false>")
+			}
+		} else {
+			doneB++
+		}
+	}
+	fa := strings.Fields(parts[0])
+	p := parsePred(fa[1])
+	wrapped := func(a []int) bool { stepB(); return p(a) }
+	var nA func() bool
+	var vA func() string
+	switch fa[0] {
+	case "rpprod":
+		it := itertools.RestrictedPrefixProduct(wrapped, atois(fa[2:])...)
+		nA, vA = it.Next, func() string { return tup(it.Value()) }
+	case "rpperm":
+		it := itertools.RestrictedPrefixPermutations(atoi(fa[2]), wrapped)
+		nA, vA = it.Next, func() string { return tup(it.Value()) }
+	default:
+		panic("cb: " + fa[0])
+	}
+	sa, _ := drainAll(nA, vA, -1)
+	for i := 0; i < 3; i++ {
+		if nA() {
+			sa = append(sa, "<true after false>")
+		}
+	}
+	for doneB < 4 && len(sb) < 300000 {
+		stepB()
+	}
+	if got := soloObs(sa); got != ra.Obs {
+		res.Viol = append(res.Viol, hx.Fail("C15:callback", "[%s] whose predicate drives [%s] yields %s, alone %s", parts[0], parts[1], clip(got), clip(ra.Obs)))
+	}
+	if got := soloObs(sb); got != rb.Obs {
+		res.Viol = append(res.Viol, hx.Fail("C15:callback", "[%s] driven from the predicate of [%s] yields %s, alone %s", parts[1], parts[0], clip(got), clip(rb.Obs)))
+	}
+	return res
+}
+
 func exec(line string) hx.Result {
-	if strings.HasPrefix(line, "il ") {
+	switch {
+	case strings.HasPrefix(line, "il "):
 		return execPair(line)
+	case strings.HasPrefix(line, "sh "), strings.HasPrefix(line, "sc "):
+		return execShared(line)
+	case strings.HasPrefix(line, "ap "):
+		return execAfterPanic(line)
+	case strings.HasPrefix(line, "cb "):
+		return execCallback(line)
 	}
 	f := strings.Fields(line)
 	name := f[0]
@@ -998,10 +1282,16 @@ func exec(line string) hx.Result {
 		}
 		it := itertools.MultisetCombinations(cp(m), k)
 		d = drain(it.Next, func() string {
-			v := cp(it.Value())
+			raw := it.Value()
+			v := cp(raw)
 			fr := it.FreqValue()
 			if tup(freqToMultiset(fr)) != tup(v) || len(fr) != len(m) {
 				fail("FreqValue %v does not describe Value %v", fr, v)
+			}
+			if callPat == "w" {
+				for i := range raw { // "You may modify the return value."
+					raw[i] = -7 - i
+				}
 			}
 			return tup(v)
 		}, lim(len(r)), window)
@@ -1079,6 +1369,14 @@ func exec(line string) hx.Result {
 			bl := make([]string, len(p))
 			for i, b := range p {
 				bl[i] = strings.ReplaceAll(tup(b), "e", "")
+			}
+			if callPat == "w" { // "It is safe to modify the output"
+				for i := range p {
+					for j := range p[i] {
+						p[i][j] = -7
+					}
+					p[i] = nil
+				}
 			}
 			return strings.Join(bl, "|")
 		}, lim(len(ref)), window)
@@ -1520,6 +1818,7 @@ func gen(g *hx.Gen) {
 	genExtreme(g)
 	genHighIndex(g)
 	genCallPatterns(g)
+	genAliasingAndHistory(g)
 
 	// two iterators alive at once, calls interleaved (same and different constructors)
 	solo := []string{"product 2 3 2", "product 3 1 2", "comb 6 3", "comb 5 2", "colex 6 3", "colex 5 4", "mcomb 3 2 1 2", "mcomb 2 1 1 1 1",
@@ -1757,6 +2056,164 @@ func genCallPatterns(g *hx.Gen) {
 		}
 	}
 	g.Exhaustive(fmt.Sprintf("API call patterns: %d constructor calls each driven with Value only every 2nd/3rd/5th step, on two pseudo random halves of the steps, twice in a row, and never; the value observed at a step must be the object of that step", len(base)))
+}
+
+// genAliasingAndHistory: input aliasing (one caller-owned slice shared by two iterators; the
+// slice overwritten after construction where the constructor copies), results overwritten by the
+// caller where the documentation allows it, hidden state (after recovered panics; an iterator
+// driven from inside another one's predicate), provenance of the predicate, long tails after
+// exhaustion, asymmetric and negative factors, and every iterator at sizes 0, 1, 2 under every
+// call pattern.
+func genAliasingAndHistory(g *hx.Gen) {
+	r := g.Rng
+	every := g.Pick(4, 1)
+	cnt := 0
+	pick := func() bool { cnt++; return cnt%every == 0 }
+	// shared multiplicities, different k (and equal k)
+	g.Emit("sh mcomb 5 2 4 3 3 2")
+	g.Emit("sh mcomb 2 5 4 3 3 2")
+	for l := 1; l <= 4; l++ {
+		lists(l, 0, 4, func(m []int) {
+			if sum(m) < 2 || !pick() {
+				return
+			}
+			k1 := r.Range(1, sum(m))
+			k2 := r.Range(1, sum(m))
+			g.Emit(fmt.Sprintf("sh mcomb %d %d %s", k1, k2, ints(m)))
+		})
+	}
+	for l := 1; l <= 3; l++ {
+		lists(l, 0, 3, func(a []int) {
+			if !pick() {
+				return
+			}
+			if sum(a) <= 6 {
+				g.Emit("sh mperm " + ints(a))
+			}
+			g.Emit("sh product " + ints(a))
+			g.Emit("sc product " + ints(a))
+			p := fmt.Sprintf("p%d", r.Intn(nFixedPreds))
+			g.Emit("sh rpprod " + p + " " + ints(a))
+			g.Emit("sc rpprod " + p + " " + ints(a))
+		})
+	}
+	g.Emit("sh mperm 15 2 1")
+	g.Emit("sc product 1 1 1 1 1 1 1 1 1 1 1 1 1 1 1 2 2 3")
+	g.Exhaustive("input aliasing: pairs of MultisetCombinations (different k), MultisetPermutations, Product, RestrictedPrefixProduct iterators built on ONE caller-owned slice and run with a hand-off; Product / RestrictedPrefixProduct with the slice overwritten right after construction")
+
+	// hidden state: after recovered panics; B driven from A's predicate
+	solo := []string{"product 2 3 2", "comb 6 3", "colex 6 3", "mcomb 3 2 1 2", "lexperm 4", "mperm 2 1 2", "intparts 9", "parts 4",
+		"rpprod p4 3 3 3", "rpperm p5 5", "comb 0 0", "comb 1 1", "product", "mperm", "rpprod p0", "rpperm p0 0", "rpperm p0 1", "rpprod p3 2 2"}
+	for _, c := range solo {
+		g.Emit("ap " + c)
+	}
+	for _, c := range []string{"pattern p12 5", "topo m5 4", "heap 4", "parts 1", "intparts 0"} {
+		g.Emit("ap " + c)
+	}
+	for _, a := range []string{"rpprod p4 3 3 3", "rpprod p5 2 4 3", "rpperm p5 5", "rpperm p10 4", "rpperm p0 3", "rpprod p0 2 2"} {
+		for _, b := range solo {
+			if g.Thorough() || pick() || a == b {
+				g.Emit("cb " + a + " ;; " + b)
+			}
+		}
+	}
+	g.Exhaustive("hidden state: cases run after five provoked and recovered panics (constructor, predicates, order relation) in the same process; an iterator advanced from inside the predicate of another one")
+
+	// provenance of the predicate (method value of a stateful memoising object), exhaustive rejection at the last level
+	for i := 0; i < nFixedPreds; i++ {
+		g.Emit(fmt.Sprintf("rpprod P%d 3 2 3", i))
+		g.Emit(fmt.Sprintf("rpprod P%d 2 2 2 2", i))
+		g.Emit(fmt.Sprintf("rpperm P%d 5", i))
+		g.Emit(fmt.Sprintf("pattern P%d 5", i))
+		g.Emit(fmt.Sprintf("rpperm P%d %d", i, r.Range(0, 6)))
+	}
+	for n := 0; n <= 6; n++ {
+		for _, z := range []int{1, n - 1, n, n + 1} {
+			if z >= 1 {
+				g.Emit(fmt.Sprintf("rpperm z%d %d", z, n))
+				g.Emit(fmt.Sprintf("pattern z%d %d", z, n))
+				g.Emit(fmt.Sprintf("rpprod z%d %s", z, ints(rep(n, 2))))
+				g.Emit(fmt.Sprintf("rpprod z%d %s", z, ints(rep(n, 3))))
+			}
+		}
+	}
+
+	// results overwritten by the caller where the documentation allows it; long tails; sizes 0, 1, 2 under every call pattern
+	for l := 1; l <= 4; l++ {
+		lists(l, 0, 3, func(m []int) {
+			for k := 1; k <= sum(m); k++ {
+				if pick() {
+					g.Emit(fmt.Sprintf("mcomb %d %s %%w", k, ints(m)))
+				}
+			}
+		})
+	}
+	g.Emit("mcomb 5 2 1 3 2 %w")
+	g.Emit("mcomb 17 15 2 1 %w")
+	for n := 1; n <= 7; n++ {
+		g.Emit(fmt.Sprintf("parts %d %%w", n))
+	}
+	small := []string{}
+	for n := 0; n <= 2; n++ {
+		for k := 0; k <= n+1; k++ {
+			small = append(small, fmt.Sprintf("comb %d %d", n, k), fmt.Sprintf("colex %d %d", n, k))
+		}
+		small = append(small, fmt.Sprintf("heap %d", n), fmt.Sprintf("lexperm %d", n), fmt.Sprintf("intparts %d", n),
+			fmt.Sprintf("rpperm p0 %d", n), fmt.Sprintf("rpperm p9 %d", n), fmt.Sprintf("pattern p0 %d", n), fmt.Sprintf("pattern p12 %d", n),
+			fmt.Sprintf("topo m0 %d", n), fmt.Sprintf("topo m1 %d", n))
+		if n >= 1 {
+			small = append(small, fmt.Sprintf("parts %d", n))
+		}
+		lists(n, 0, 2, func(a []int) {
+			small = append(small, "product "+ints(a), "rpprod p0 "+ints(a), "rpprod p2 "+ints(a), "mperm "+ints(a))
+			for k := 0; k <= sum(a)+1 && k <= 2; k++ {
+				small = append(small, fmt.Sprintf("mcomb %d %s", k, ints(a)))
+			}
+		})
+	}
+	for _, c := range small {
+		for _, p := range []string{"k2", "k3", fmt.Sprintf("r%d", r.Intn(1<<30)), "d", "n", "t"} {
+			g.Emit(c + " %" + p)
+		}
+	}
+	for _, c := range []string{"comb 5 0", "colex 5 0", "colex 2 3", "colex 0 1", "comb 2 3", "product 2 0 2", "mcomb 9 2 2", "mcomb 0", "comb 6 3", "colex 6 3", "intparts 7", "lexperm 4", "heap 4",
+		"rpprod p1 2 2", "rpperm p1 3", "pattern p1 3", "topo m7 3", "parts 3", "mperm 2 2", "rpperm p0 4", "topo m0 3"} {
+		g.Emit(c + " %t")
+	}
+	g.Exhaustive(fmt.Sprintf("call patterns at the boundary sizes: %d constructor calls with n, k, list lengths in {0,1,2} under every call pattern; returned slices overwritten by the caller for MultisetCombinations.Value and Partitions.Value (documented as modifiable); 300 further calls of Next after exhaustion", len(small)))
+
+	// asymmetric factor lists (one large factor before / between / after small ones) and factors below 1
+	minInt := -maxInt - 1
+	for _, b := range []int{255, 256, 257, 1024} {
+		for _, a := range [][]int{{b}, {b, 2}, {2, b}, {1, b, 1}, {2, b, 1}, {1, 1, b, 1, 1}} {
+			size := 1
+			for _, v := range a {
+				size *= v
+			}
+			w := ""
+			if size > 3000 {
+				w = " @600"
+			}
+			g.Emit("product " + ints(a) + w)
+			g.Emit("rpprod p2 " + ints(a) + w)
+			g.Emit("rpprod s1 " + ints(a))
+		}
+		g.Emit(fmt.Sprintf("mcomb 2 %d 1 1", b))
+		g.Emit(fmt.Sprintf("mcomb %d 1 %d 1", b, b))
+		if b <= 257 || g.Thorough() {
+			g.Emit(fmt.Sprintf("mperm 1 %d", b))
+			g.Emit(fmt.Sprintf("mperm %d 1", b))
+		}
+	}
+	for _, v := range []int{-1, -2, minInt, minInt + 1} {
+		g.Emit(fmt.Sprintf("product %d", v))
+		g.Emit(fmt.Sprintf("product 2 %d", v))
+		g.Emit(fmt.Sprintf("product %d 2 3", v))
+		g.Emit(fmt.Sprintf("product %d %d", v, maxInt))
+		g.Emit(fmt.Sprintf("rpprod p0 2 %d 2", v))
+		g.Emit(fmt.Sprintf("rpprod p0 %d", v))
+	}
+	g.Exhaustive("asymmetric factor lists (one factor 255, 256, 257, 1024 before / between / after factors 1 and 2), one huge among unit multiplicities, factors below 1 down to MinInt (Product treats every factor < 1 as an empty factor)")
 }
 
 // genExtreme: parameters at the ends of the int range whose sums or products overflow while the
